@@ -64,6 +64,9 @@ func c03Baseline(wd *world.World, sentinel *world.Client) string {
 		}
 		users = append(users, fmt.Sprintf("%d/%s", u.ID, u.Name))
 	}
+	if p := c03Probe(sentinel, r); p != "" {
+		return p
+	}
 	// the transfer manager must be usable too (a lock left held by a hostile transfer would show here)
 	bid := sentinel.Req(ref.TDownloadBanner)
 	world.Settle(20 * time.Second)
@@ -72,6 +75,30 @@ func c03Baseline(wd *world.World, sentinel *world.Client) string {
 	}
 	st := wd.Srv.CurrentStats()
 	return fmt.Sprintf("users=%v connected=%v downloads=%v uploads=%v waiting=%v", users, st["CurrentlyConnected"], st["DownloadsInProgress"], st["UploadsInProgress"], st["WaitingDownloads"])
+}
+
+// c03Probe: what an operator's client does all day - client info of every listed user, the file
+// lists of the root and of the upload folder: whatever a hostile peer left behind (a pending transfer
+// with odd fields, an uploaded file with an odd name), each request is answered.
+func c03Probe(sentinel *world.Client, userList *ref.Tx) string {
+	var ids []uint32
+	for _, b := range userList.GetAll(ref.FUserNameWithInfo) {
+		if u, err := ref.DecodeUserInfo(b); err == nil {
+			ids = append(ids, sentinel.Req(ref.TGetClientInfoText, ref.F16(ref.FUserID, u.ID)))
+		}
+	}
+	ids = append(ids, sentinel.Req(ref.TGetFileNameList), sentinel.Req(ref.TGetFileNameList, ref.F(ref.FFilePath, ref.PathBytes("Uploads"))))
+	world.Settle(20 * time.Second)
+	for i, id := range ids {
+		if sentinel.Reply(id) == nil {
+			what := "client-info"
+			if i >= len(ids)-2 {
+				what = "file-list"
+			}
+			return "sentinel-" + what + "-request-not-answered"
+		}
+	}
+	return ""
 }
 
 func c03World() (*world.World, *world.Client, bool) {
@@ -154,8 +181,10 @@ func c03Run(w *explore.Worker, c c03Case) {
 		world.Settle(20 * time.Second)
 		id := sentinel.Req(ref.TGetUserNameList)
 		world.Settle(20 * time.Second)
-		if sentinel.Reply(id) == nil {
+		if r := sentinel.Reply(id); r == nil {
 			fail("sentinel-not-answered-while-hostile-connection-open", fmt.Sprintf("blocked threads: %v", vrt.Blocked()))
+		} else if p := c03Probe(sentinel, r); p != "" {
+			fail("sentinel-not-answered-while-hostile-connection-open", p)
 		}
 		if wdg := vrt.Wedged(); len(wdg) > 0 {
 			fail("wedged", strings.Join(wdg, ", "))
